@@ -152,6 +152,37 @@ CHECKS["C12"] = dict(
     technique="symbolic execution of the real reflection + codec on trees with symbolic leaves + SMT validity",
 )
 
+CHECKS["C05"] = dict(
+    engine="z3tv",
+    category="translation_validation",
+    text="Translation validation of the real artefact: for every schema of a CAN family the real fcp_dbc generator's "
+         "text is read back by an own BO_/SG_/SIG_VALTYPE_/SG_MUL_VAL_ reader and, per signal, z3 decides over an "
+         "arbitrary 64-bit frame that the DBC semantics (Intel/Motorola extraction) equals the layout semantics of the "
+         "corresponding leaf; id, name, DLC, sign, float marking, unit, mux table and bus partition are compared "
+         "concretely; a witness frame is replayed through cantools. In addition _make_signals runs under pysym on "
+         "symbolic layouts (symbolic lengths, signedness, units, mux_count) with recording stand-ins for cantools.",
+    design_ref="DESIGN.md §4 C05",
+    note="Programs = schemas of verif.checks.dbc_checks.can_family; the reference layout is the real PackedEncoder "
+         "output (C04's obligation). cantools' own text emission is exercised concretely only; big-endian signals that "
+         "are not byte aligned are outside (the layout does not define them).",
+    technique="SMT translation validation of the generated DBC vs. the packed layout over all 2^64 frames + symbolic execution of _make_signals",
+)
+CHECKS["C14"] = dict(
+    engine="pysym",
+    category="model_checking",
+    text="write_dbc runs under pysym on skeleton bindings whose integer widths are symbolic (1..64 each, up to 9 leaves, "
+         "excess in flat fields, nested structs, arrays, arrays of structs): z3 proves error <=> total > 64 bits, no "
+         "message recorded on error, and otherwise every recorded signal lies inside 8*dlc bits and signals are "
+         "pairwise disjoint; _make_signals likewise on symbolic tilings up to 200 bits. The real dbc and can_c "
+         "generation commands are run concretely for variable-size fields at every position and sizes 57..200 bits and "
+         "must fail without touching the output directory.",
+    design_ref="DESIGN.md §4 C14",
+    note="The C generator's size gate with symbolic widths is decided in C09 (size skeletons); its writer renders widths "
+         "into text (C boundary), so for C the symbolic part stops at the gate and the rest is concrete conformance. An "
+         "exception escaping the command counts as failing with an error.",
+    technique="symbolic execution of the real DBC writer with symbolic field widths + SMT; concrete runs of the real generation commands",
+)
+
 NOT_APPLICABLE = {
     "C07": "Subject is the Lark Earley parser with a dynamic regex lexer over all texts: it cannot be executed "
            "symbolically by CrossHair or by the proxy engine within reach (DESIGN.md §6); grammar-based generation would "
